@@ -210,6 +210,9 @@ func lifecycleOracle(prop string, c *Case, conn int, cs *connState, t *Transcrip
 			}
 		}
 	}
+	if cs.EndCtx == "live" {
+		add("context-not-cancelled", "the connection has ended but the context of its last command was never cancelled")
+	}
 	for id, n := range mwCount {
 		if n != 1 {
 			add("middleware-not-once", fmt.Sprintf("session middleware %s ran %d times on one connection", id, n))
@@ -339,9 +342,11 @@ func genGlobalParams(r *Rand, c *Case) {
 		for n := r.Range(1, 2); n > 0; n-- {
 			c.Server.Params[r.Pick("session_authorization", "client_encoding", "server_encoding", "server_version")] = r.Pick("postgres", "LATIN1", "0.0")
 		}
-		if _, ok := c.Server.Params["server_version"]; ok && c.Server.Version == "" {
-			delete(c.Server.Params, "server_version") // without a configured Version it is an ordinary key: keep it out of the collision case
-		}
+		// (without a configured Version, server_version is an ordinary configured
+		// key and announced with its configured value)
+	}
+	if c.Server.Params != nil && r.Chance(1, 8) {
+		c.Server.Params["server_version"] = r.Pick("14.1", "0.0.1-custom")
 	}
 }
 
@@ -349,7 +354,7 @@ func init() {
 	// ------------------------------------------------------------------ C19
 	register(&Prop{
 		ID: "C19", Level: "exploration", QuickS: 20, ThoroughS: 300,
-		Rule:       "seeded server configurations with 0-5 session middlewares (each adds a distinct context value, any one may fail), optional terminate hook (succeeding or failing), with and without authentication, and command histories (simple and extended, errors, Terminate followed by more bytes); every middleware, parser and statement callback records the context it receives (middleware values, client and server parameters, remote address, type map, liveness, whether the previous command's context has been cancelled); judged by the event-order monitor plus the reference model (which predicts the middleware and terminate-hook events); non-trivial = at least one middleware is registered and at least one command callback ran, or a middleware failed, or a Terminate was sent; distinct = distinct case content hashes",
+		Rule:       "seeded server configurations with 0-5 session middlewares (each adds a distinct context value, any one may fail), optional terminate hook (succeeding or failing), with and without authentication, and command histories (simple and extended, errors, Terminate followed by more bytes); every middleware, parser and statement callback records the context it receives (middleware values, client and server parameters, remote address, type map, liveness, whether the previous command's context has been cancelled); judged by the event-order monitor plus the reference model (which predicts the middleware and terminate-hook events); a quarter of the sessions end abruptly instead (failing write, peer vanishing at a byte offset, read error) and the last command's context is sampled once the connection has ended; non-trivial = at least one middleware is registered and at least one command callback ran, or a middleware failed, or a Terminate was sent; distinct = distinct case content hashes",
 		Components: e1Components, Assumptions: commonAssumptions,
 		Gen: func(r *Rand, tier string) *Case {
 			c := &Case{Server: ServerCfg{Limit: smallLimit(r)}}
@@ -370,6 +375,18 @@ func init() {
 				// Terminate followed by more bytes
 				last := &c.Conns[0].Steps[len(c.Conns[0].Steps)-1]
 				last.Msgs = append(last.Msgs, pgwire.FMsg{K: "X"}, pgwire.FMsg{K: "Q", S1: "after-terminate"}, pgwire.FMsg{K: "raw", Data: r.Bytes(9)})
+			} else if r.Chance(1, 4) {
+				// the session ends abruptly instead: the peer vanishes in the middle
+				// of a reply or of a message (a command that ends with an error is
+				// still a command that has ended)
+				switch r.Intn(3) {
+				case 0:
+					c.Conns[0].Faults = []Fault{{Kind: "write-err", At: r.Range(7, 30), Bytes: r.Intn(5)}}
+				case 1:
+					c.Conns[0].Faults = []Fault{{Kind: "eof-at-byte", At: r.Range(60, 600)}}
+				case 2:
+					c.Conns[0].Faults = []Fault{{Kind: "read-err", At: r.Range(3, 30)}}
+				}
 			}
 			return c
 		},
@@ -399,7 +416,7 @@ func init() {
 	// ------------------------------------------------------------------ C12
 	register(&Prop{
 		ID: "C12", Level: "exploration", QuickS: 25, ThoroughS: 420, Race: true,
-		Rule:        "seeded startup negotiations: startup packets with 1-8 key/value pairs (duplicates, empty values, an empty key in the middle, missing final terminator, missing value), configured global parameter maps (nil, empty, custom keys) and version strings, with and without authentication, CancelRequest as first packet / after an SSLRequest was declined; callbacks read ClientParameters, ServerParameters and AuthenticatedUsername back; E2 share: 2-5 connections of different users connect concurrently to one server sharing one user-supplied map, under seeded schedules and (race shard) under the -race build with the HB-transparent scheduler; non-trivial = a session was established and at least one callback read the parameters back, or a cancel/malformed packet was refused; distinct = distinct case content hashes",
+		Rule:        "seeded startup negotiations: startup packets with 1-8 key/value pairs (duplicates, empty values, an empty key in the middle, missing final terminator, missing value), configured global parameter maps (nil, empty, custom keys) and version strings, with and without authentication, CancelRequest as first packet / after an SSLRequest was declined; callbacks read ClientParameters, ServerParameters and AuthenticatedUsername back; E2 share: 2-5 connections of different users connect concurrently to one server sharing one user-supplied map, under seeded schedules and (race shard) under the -race build with the HB-transparent scheduler; mixed-case keys, server_version configured through the map with and without a Version string, 2-4 connections served one after the other by the same server; non-trivial = a session was established and at least one callback read the parameters back, or a cancel/malformed packet was refused; distinct = distinct case content hashes",
 		Components:  append(append([]string{}, e1Components...), "E2 share: seeded scheduler interleaves the connecting users; race shard: -race build, kernel synchronisation hidden from the detector"),
 		Assumptions: commonAssumptions,
 		Gen:         genC12,
@@ -474,6 +491,13 @@ func genC12(r *Rand, tier string) *Case {
 	}
 	genGlobalParams(r, c)
 	c.Conns = []ConnCase{genC12One(r, c, "u"+r.Ident(3))}
+	if r.Chance(1, 5) {
+		// further connections served one after the other by the same server:
+		// nothing of an earlier (possibly malformed) negotiation may show up later
+		for n := r.Range(1, 3); n > 0; n-- {
+			c.Conns = append(c.Conns, genC12One(r, c, "v"+r.Ident(3)))
+		}
+	}
 	return c
 }
 
